@@ -12,6 +12,7 @@ import (
 	"testing"
 
 	"k8s.io/apimachinery/pkg/apis/meta/v1/unstructured"
+	"k8s.io/apimachinery/pkg/runtime"
 	"k8s.io/apimachinery/pkg/types"
 
 	"github.com/crossplane/crossplane/verifsim/kit"
@@ -120,15 +121,26 @@ func (prop) Run(t *testing.T, s *sim.Sim, res *runner.Result) {
 				ns, _, _ := unstructured.NestedString(xr.Object, "spec", "writeConnectionSecretToRef", "namespace")
 				n, _, _ := unstructured.NestedString(xr.Object, "spec", "writeConnectionSecretToRef", "name")
 				k := simapi.ObjKey{Kind: "Secret", NS: ns, Name: n}
-				if n == "" || w.Store.Peek(k) != nil {
+				if n == "" {
 					continue
 				}
-				acts = append(acts, sim.Action{Key: "somebody leaves an uncontrolled connection secret at " + n, Weight: 1, Run: func() {
-					sec := secret(ns, n, "connection.crossplane.io/v1alpha1", nil, map[string]string{"leftover": "bGVmdA==", "user": "c29tZW9uZQ=="})
-					if w.Direct.Create(context.Background(), sec) == nil {
-						w.S.Probe("uncontrolled-connection-secret-at-xr-secret-name")
-					}
-				}})
+				if _, isForeign := st.foreign[k]; !isForeign {
+					// the XR's secret is lost (or was never there) and somebody leaves an
+					// uncontrolled secret of the connection type under its name
+					acts = append(acts, sim.Action{Key: "somebody leaves an uncontrolled connection secret at " + n, Weight: 1, Run: func() {
+						ctx := context.Background()
+						if m := w.Store.Peek(k); m != nil {
+							_ = w.Direct.Delete(ctx, &unstructured.Unstructured{Object: runtime.DeepCopyJSON(m)})
+						}
+						sec := secret(ns, n, "connection.crossplane.io/v1alpha1", nil, map[string]string{"leftover": "bGVmdA==", "user": "c29tZW9uZQ=="})
+						if w.Direct.Create(ctx, sec) == nil {
+							w.S.Probe("uncontrolled-connection-secret-at-xr-secret-name")
+						}
+					}})
+				}
+				if w.Store.Peek(k) != nil {
+					continue
+				}
 				acts = append(acts, sim.Action{Key: "stranger creates the secret " + n, Weight: 1, Run: func() {
 					sec := secret(ns, n, "Opaque", map[string]any{"apiVersion": "v1", "kind": "ConfigMap", "name": "stranger", "uid": "stranger-uid", "controller": true}, map[string]string{"theirs": "c2VjcmV0"})
 					if w.Direct.Create(context.Background(), sec) == nil {
@@ -275,6 +287,20 @@ func (st *state) judgeXRSecretWrite(e *simapi.LogEntry, xrName string) {
 				produced[k] = string(v)
 			}
 		}
+	}
+	// ... produced for this XR: the pipeline whose output is published observed
+	// the very object that controls the secret
+	for i := len(st.fn.Calls) - 1; i >= 0; i-- {
+		c := st.fn.Calls[i]
+		if c.TaskID != e.TaskID || c.Req == nil {
+			continue
+		}
+		ou, _, _ := unstructured.NestedString(c.Req.GetObserved().GetComposite().GetResource().AsMap(), "metadata", "uid")
+		if cu := controllerUID(e.After); e.Changed && ou != "" && cu != "" && string(cu) != ou {
+			w.S.Violate("C09/published-values-computed-for-another-xr", fmt.Sprintf("reconcile of XR %s published into secret %s/%s (controlled by UID %s) what its pipeline computed while observing the XR with UID %s", xrName, e.Key.NS, e.Key.Name, cu, ou))
+			return
+		}
+		break
 	}
 	if !found {
 		w.S.Violate("C09/secret-written-without-pipeline-output", fmt.Sprintf("reconcile of XR %s wrote its secret although no function responded in this reconcile", xrName))
